@@ -194,7 +194,8 @@ Definition check_blocks (cx : Ctx) (pre : tables) (n dt : Z) (outcome : string) 
   | Some s, Some ipost =>
       let '(s', out) := run_blocks (Z.to_nat n) cx dt s in
       mk_res "block" out (String.eqb out outcome) (diff_tables (enc_state s') post) "blocks"
-             (failed_monitors (did_monitors (cx_chain cx) (did ipost) ++ app_monitors true (cx_height cx + n - 1) ipost))
+             (failed_monitors (did_monitors (cx_chain cx) (did ipost) ++ rollback_monitors true s ipost ++ [("mint.within_age_cap", mon_mint_cap n s ipost)] ++
+                               app_monitors true (cx_height cx + n - 1) ipost))
              (negb (tables_eqb pre post))
   | _, _ => res_undecodable "state"
   end.
@@ -234,6 +235,27 @@ Definition model_post (pre ctx op : value) : value :=
       | Some s, Some o => let '(s', out) := step cx s o in
                           VL [VS (outcome_str out); VS (outcome_detail out); VL (map (fun kv => VL [VS kv.1; kv.2]) (enc_state s'))]
       | _, _ => VS "undecodable"
+      end
+  | _, _ => VS "undecodable"
+  end.
+
+(* debugging aid: the quantities the solvency / conservation monitors compare, for one recorded state *)
+Definition state_metrics (ctx post : value) : value :=
+  match dec_ctx ctx, dec_tables post with
+  | Some cx, Some t =>
+      match dec_state t with
+      | Some s =>
+          let h := cx_height cx in
+          VL [VL [VS "market_balance"; VZ (balance s (macc MARKET))];
+              VL [VS "owed_market"; VZ (owed_market h s)];
+              VL [VS "waiting_share"; VZ (waiting_share s)];
+              VL [VS "market_surplus"; VZ (market_surplus h s)];
+              VL [VS "order_balance"; VZ (balance s (macc ORDER))];
+              VL [VS "owed_order"; VZ (owed_order s)];
+              VL [VS "node_balance"; VZ (balance s (macc NODE))];
+              VL [VS "owed_node_collateral"; VZ (owed_node_collateral s)];
+              VL [VS "owed_node_rewards"; VZ (owed_node_rewards s)]]
+      | None => VS "undecodable"
       end
   | _, _ => VS "undecodable"
   end.
